@@ -178,6 +178,33 @@ fn emulate_group(n: libc::c_int) -> String {
     })
 }
 
+/// the action happens on a second thread while the main thread idles with every signal unblocked: the outcome
+/// must be the one of the signal, whichever thread the kernel hands a process-directed signal to
+fn on_worker<F: FnOnce() -> i32 + Send + 'static>(f: F) -> i32 {
+    let h = std::thread::spawn(f);
+    // the main thread stays around (and unblocked) until the worker is done
+    match h.join() {
+        Ok(code) => code,
+        Err(_) => 7,
+    }
+}
+
+fn native_worker(n: libc::c_int) -> String {
+    fork_classify(move || on_worker(move || unsafe {
+        if libc::raise(n) != 0 {
+            return 3;
+        }
+        0
+    }))
+}
+
+fn emulate_worker(n: libc::c_int) -> String {
+    fork_classify(move || on_worker(move || match signal_hook::low_level::emulate_default_handler(n) {
+        Ok(()) => 0,
+        Err(_) => 3,
+    }))
+}
+
 fn native(n: libc::c_int) -> String {
     fork_classify(|| unsafe {
         if libc::raise(n) != 0 {
@@ -271,12 +298,14 @@ pub fn main() -> i32 {
                     let k = match *ctx {
                         "pending" => native_pending(n),
                         "group" => native_group(n),
+                        "worker" => native_worker(n),
                         _ => native(n),
                     };
                     let e = match *ctx {
                         "normal" => emulate_normal(n),
                         "pending" => emulate_pending(n),
                         "group" => emulate_group(n),
+                        "worker" => emulate_worker(n),
                         "handler" => emulate_in_handler(n),
                         "cond" => emulate_cond_default(n),
                         _ => "bad-ctx".into(),
